@@ -395,3 +395,211 @@ Theorem C06_history_inst :
       0 < r_sigma (C06L.get (C06L.run GaussInst.PhiK GaussInst.PhiinvK P k st gs) i)).
 Proof. exact (C06_history GaussInst.PhiK GaussInst.PhiinvK GaussFull.GaussFacts_inst). Qed.
 Print Assumptions C06_history_inst.
+
+(** ** The upper bound in IEEE 754 binary64 (float level, not over the reals).
+
+    The model instantiated on [FloatInst.B64Num exp64 erfc64 pow64 icdf64 : Num binary64]
+    (Flocq's binary64 with round-to-nearest-even [+ - * / sqrt] and comparisons; the libm
+    functions [exp], [erfc], [x ** 2], [inv_cdf] are arbitrary parameters).  [B2R 53 1024 x]
+    is the real value of the double [x]; [is_finite 53 1024 x = true] says [x] is neither an
+    infinity nor a NaN ("no overflow").  No property of [pow64] ([x ** 2], not correctly
+    rounded in C) is needed: only that the share it produces is >= 0.
+
+    [C06_update_sigma_le_binary64]: the new sigma [sigma * sqrt (max (1 - share * delta, kappa))]
+    computed in doubles is <= the old sigma, as doubles, with no rounding slack: every factor
+    is <= 1 in floats (rounding is monotone and 0, 1 and sigma are doubles).  Only three
+    finiteness hypotheses on intermediates are needed; the finiteness of sigma, share, delta,
+    the max and its square root follows ([C06_update_intermediates_finite_binary64]).
+    Since [r_sigma (inflate tau r)] is by definition the double
+    [fsqrt (fadd (fmul sigma sigma) (fmul tau tau))], instantiating [p := inflate tau r] gives
+    the bound of the property text on the very doubles the code computes.
+    [C06_clamp_sigma_le_binary64]: the clamp of [limit_sigma] returns a finite sigma that is
+    <= the prior sigma (and <= the unclamped result).
+    [C06_bt_delta_nonneg_binary64]: for Bradley-Terry the accumulated delta is >= 0 in
+    doubles (hypothesis [0 <= delta] of the first theorem), given exp >= 0, gamma >= 0,
+    c > 0, team sigma^2 >= 0 and finiteness of [1 + e] and of the accumulated sums.
+    Nothing was found false: no step can be pushed above 1 by rounding. *)
+From Flocq Require Import IEEE754.BinarySingleNaN IEEE754.Binary IEEE754.Bits.
+From OSV Require Import FloatInst.
+From OSV.Lemmas Require FloatOrderL.
+
+Theorem C06_update_sigma_le_binary64 :
+  forall (exp64 erfc64 pow64 icdf64 : binary64 -> binary64)
+         (P : params binary64) (ti : trating binary64) (omega delta : binary64) (p : rating binary64),
+  0 <= B2R 53 1024 (r_sigma p) ->
+  0 <= B2R 53 1024 (@fdiv binary64 (B64Num exp64 erfc64 pow64 icdf64)
+                      (@fpow2 binary64 (B64Num exp64 erfc64 pow64 icdf64) (r_sigma p)) (t_ss ti)) ->
+  0 <= B2R 53 1024 delta ->
+  is_finite 53 1024 (p_kappa P) = true ->
+  0 <= B2R 53 1024 (p_kappa P) <= 1 ->
+  is_finite 53 1024
+    (@fmul binary64 (B64Num exp64 erfc64 pow64 icdf64)
+       (@fdiv binary64 (B64Num exp64 erfc64 pow64 icdf64)
+          (@fpow2 binary64 (B64Num exp64 erfc64 pow64 icdf64) (r_sigma p)) (t_ss ti)) delta) = true ->
+  is_finite 53 1024
+    (@fsub binary64 (B64Num exp64 erfc64 pow64 icdf64) (@fone binary64 (B64Num exp64 erfc64 pow64 icdf64))
+       (@fmul binary64 (B64Num exp64 erfc64 pow64 icdf64)
+          (@fdiv binary64 (B64Num exp64 erfc64 pow64 icdf64)
+             (@fpow2 binary64 (B64Num exp64 erfc64 pow64 icdf64) (r_sigma p)) (t_ss ti)) delta)) = true ->
+  is_finite 53 1024
+    (r_sigma (@update_player binary64 (B64Num exp64 erfc64 pow64 icdf64) P ti omega delta p)) = true ->
+  0 <= B2R 53 1024 (r_sigma (@update_player binary64 (B64Num exp64 erfc64 pow64 icdf64) P ti omega delta p))
+    <= B2R 53 1024 (r_sigma p).
+Proof. exact FloatOrderL.update_player_sigma_le_b64. Qed.
+Print Assumptions C06_update_sigma_le_binary64.
+
+(** under the same finiteness hypotheses all the other intermediates are finite *)
+Theorem C06_update_intermediates_finite_binary64 :
+  forall (exp64 erfc64 pow64 icdf64 : binary64 -> binary64)
+         (P : params binary64) (ti : trating binary64) (omega delta : binary64) (p : rating binary64),
+  is_finite 53 1024 (p_kappa P) = true ->
+  is_finite 53 1024
+    (@fmul binary64 (B64Num exp64 erfc64 pow64 icdf64)
+       (@fdiv binary64 (B64Num exp64 erfc64 pow64 icdf64)
+          (@fpow2 binary64 (B64Num exp64 erfc64 pow64 icdf64) (r_sigma p)) (t_ss ti)) delta) = true ->
+  is_finite 53 1024
+    (@fsub binary64 (B64Num exp64 erfc64 pow64 icdf64) (@fone binary64 (B64Num exp64 erfc64 pow64 icdf64))
+       (@fmul binary64 (B64Num exp64 erfc64 pow64 icdf64)
+          (@fdiv binary64 (B64Num exp64 erfc64 pow64 icdf64)
+             (@fpow2 binary64 (B64Num exp64 erfc64 pow64 icdf64) (r_sigma p)) (t_ss ti)) delta)) = true ->
+  is_finite 53 1024
+    (r_sigma (@update_player binary64 (B64Num exp64 erfc64 pow64 icdf64) P ti omega delta p)) = true ->
+  is_finite 53 1024 (r_sigma p) = true
+  /\ is_finite 53 1024
+       (@fdiv binary64 (B64Num exp64 erfc64 pow64 icdf64)
+          (@fpow2 binary64 (B64Num exp64 erfc64 pow64 icdf64) (r_sigma p)) (t_ss ti)) = true
+  /\ is_finite 53 1024 delta = true
+  /\ is_finite 53 1024
+       (@fmax binary64 (B64Num exp64 erfc64 pow64 icdf64)
+          (@fsub binary64 (B64Num exp64 erfc64 pow64 icdf64) (@fone binary64 (B64Num exp64 erfc64 pow64 icdf64))
+             (@fmul binary64 (B64Num exp64 erfc64 pow64 icdf64)
+                (@fdiv binary64 (B64Num exp64 erfc64 pow64 icdf64)
+                   (@fpow2 binary64 (B64Num exp64 erfc64 pow64 icdf64) (r_sigma p)) (t_ss ti)) delta))
+          (p_kappa P)) = true
+  /\ is_finite 53 1024
+       (@fsqrt binary64 (B64Num exp64 erfc64 pow64 icdf64)
+          (@fmax binary64 (B64Num exp64 erfc64 pow64 icdf64)
+             (@fsub binary64 (B64Num exp64 erfc64 pow64 icdf64) (@fone binary64 (B64Num exp64 erfc64 pow64 icdf64))
+                (@fmul binary64 (B64Num exp64 erfc64 pow64 icdf64)
+                   (@fdiv binary64 (B64Num exp64 erfc64 pow64 icdf64)
+                      (@fpow2 binary64 (B64Num exp64 erfc64 pow64 icdf64) (r_sigma p)) (t_ss ti)) delta))
+             (p_kappa P))) = true.
+Proof. exact FloatOrderL.update_player_intermediates_finite_b64. Qed.
+Print Assumptions C06_update_intermediates_finite_binary64.
+
+(** limit_sigma: the clamped sigma is finite and <= the prior sigma and <= the unclamped one *)
+Theorem C06_clamp_sigma_le_binary64 :
+  forall (exp64 erfc64 pow64 icdf64 : binary64 -> binary64) (orig res : rating binary64),
+  is_finite 53 1024 (r_sigma orig) = true ->
+  is_finite 53 1024 (r_sigma res) = true ->
+  is_finite 53 1024 (r_sigma (@clamp_player binary64 (B64Num exp64 erfc64 pow64 icdf64) orig res)) = true
+  /\ B2R 53 1024 (r_sigma (@clamp_player binary64 (B64Num exp64 erfc64 pow64 icdf64) orig res))
+     <= B2R 53 1024 (r_sigma orig)
+  /\ B2R 53 1024 (r_sigma (@clamp_player binary64 (B64Num exp64 erfc64 pow64 icdf64) orig res))
+     <= B2R 53 1024 (r_sigma res).
+Proof. exact FloatOrderL.clamp_player_sigma_le_b64. Qed.
+Print Assumptions C06_clamp_sigma_le_binary64.
+
+(** Bradley-Terry: the delta accumulated over the opponents [opp] of team [ti] is >= 0 *)
+Theorem C06_bt_delta_nonneg_binary64 :
+  forall (exp64 erfc64 pow64 icdf64 : binary64 -> binary64)
+         (P : params binary64) (trs : list (trating binary64)) (ti : trating binary64)
+         (opp : list (trating binary64)),
+  (forall x : binary64, is_finite 53 1024 x = true -> 0 <= B2R 53 1024 (exp64 x)) ->
+  0 <= B2R 53 1024 (t_ss ti) ->
+  (forall tq : trating binary64, In tq opp ->
+     0 < B2R 53 1024 (@c_iq binary64 (B64Num exp64 erfc64 pow64 icdf64) P ti tq)
+     /\ 0 <= B2R 53 1024 (@gamma_of binary64 P (@c_iq binary64 (B64Num exp64 erfc64 pow64 icdf64) P ti tq) trs ti)
+     /\ is_finite 53 1024
+          (@fdiv binary64 (B64Num exp64 erfc64 pow64 icdf64)
+             (@fsub binary64 (B64Num exp64 erfc64 pow64 icdf64) (t_mu tq) (t_mu ti))
+             (@c_iq binary64 (B64Num exp64 erfc64 pow64 icdf64) P ti tq)) = true
+     /\ is_finite 53 1024
+          (@fadd binary64 (B64Num exp64 erfc64 pow64 icdf64) (@fone binary64 (B64Num exp64 erfc64 pow64 icdf64))
+             (exp64 (@fdiv binary64 (B64Num exp64 erfc64 pow64 icdf64)
+                       (@fsub binary64 (B64Num exp64 erfc64 pow64 icdf64) (t_mu tq) (t_mu ti))
+                       (@c_iq binary64 (B64Num exp64 erfc64 pow64 icdf64) P ti tq)))) = true) ->
+  (forall pre post : list (trating binary64), opp = pre ++ post ->
+     is_finite 53 1024
+       (snd (fold_left (@bt_term binary64 (B64Num exp64 erfc64 pow64 icdf64) P trs ti) pre
+               (@fzero binary64 (B64Num exp64 erfc64 pow64 icdf64),
+                @fzero binary64 (B64Num exp64 erfc64 pow64 icdf64)))) = true) ->
+  0 <= B2R 53 1024
+         (snd (fold_left (@bt_term binary64 (B64Num exp64 erfc64 pow64 icdf64) P trs ti) opp
+                 (@fzero binary64 (B64Num exp64 erfc64 pow64 icdf64),
+                  @fzero binary64 (B64Num exp64 erfc64 pow64 icdf64)))).
+Proof. exact FloatOrderL.bt_delta_nonneg_b64. Qed.
+Print Assumptions C06_bt_delta_nonneg_binary64.
+
+(** ** Non-vacuity of the binary64 statements: concrete doubles.
+    Stand-ins for the libm parameters: [x ** 2 := x * x], [exp := |x|] (non-negative, as the
+    hypothesis on exp requires); the others are not used.  sigma = 25/3 (the double
+    0x4020AAAAAAAAAAAB), team sigma^2 = 139.0, delta = 0.25, kappa = 2^-13, beta = 25/6.
+    The update strictly decreases sigma here (last conjunct, by computation on doubles). *)
+Example C06_update_sigma_le_binary64_example :
+  let N := B64Num b64_abs (fun x => x) (fun x => b64_mult mode_NE x x) (fun x => x) in
+  let P := @mkParams binary64 (b64_of_bits 4616377268039232171) (b64_of_dyadic 1 (-13))
+             (fun _ _ _ _ _ _ => b64_of_Z 1) in
+  let p := @mkRating binary64 (b64_of_bits 4627730092099895296) (b64_of_bits 4620880867666602667) 0%Z NmNone in
+  let ti := @mkT binary64 (b64_of_bits 4627730092099895296) (b64_of_Z 139) [p] 0 in
+  let omega := b64_of_dyadic 1 (-1) in
+  let delta := b64_of_dyadic 1 (-2) in
+  (0 <= B2R 53 1024 (r_sigma (@update_player binary64 N P ti omega delta p)) <= B2R 53 1024 (r_sigma p))
+  /\ b64_ltb (r_sigma (@update_player binary64 N P ti omega delta p)) (r_sigma p) = true.
+Proof.
+  intros N P p ti omega delta. split; [|vm_compute; reflexivity].
+  apply C06_update_sigma_le_binary64.
+  - apply FloatOrderL.b64_sign_nonneg. vm_compute. reflexivity.
+  - apply FloatOrderL.b64_sign_nonneg. vm_compute. reflexivity.
+  - apply FloatOrderL.b64_sign_nonneg. vm_compute. reflexivity.
+  - vm_compute. reflexivity.
+  - split; [apply FloatOrderL.b64_sign_nonneg | apply FloatOrderL.b64_leb_one_le_1]; vm_compute; reflexivity.
+  - vm_compute. reflexivity.
+  - vm_compute. reflexivity.
+  - vm_compute. reflexivity.
+Qed.
+
+(** clamp: a result sigma of 9.0 against a prior sigma of 25/3 is cut back to the prior sigma *)
+Example C06_clamp_sigma_le_binary64_example :
+  let N := B64Num b64_abs (fun x => x) (fun x => b64_mult mode_NE x x) (fun x => x) in
+  let orig := @mkRating binary64 (b64_of_bits 4627730092099895296) (b64_of_bits 4620880867666602667) 0%Z NmNone in
+  let res := @mkRating binary64 (b64_of_Z 26) (b64_of_Z 9) 0%Z NmNone in
+  (is_finite 53 1024 (r_sigma (@clamp_player binary64 N orig res)) = true
+   /\ B2R 53 1024 (r_sigma (@clamp_player binary64 N orig res)) <= B2R 53 1024 (r_sigma orig)
+   /\ B2R 53 1024 (r_sigma (@clamp_player binary64 N orig res)) <= B2R 53 1024 (r_sigma res))
+  /\ r_sigma (@clamp_player binary64 N orig res) = r_sigma orig.
+Proof.
+  intros N orig res. split.
+  - apply C06_clamp_sigma_le_binary64; vm_compute; reflexivity.
+  - apply B2FF_inj. vm_compute. reflexivity.
+Qed.
+
+(** Bradley-Terry delta over two opponents (team aggregates (25, 139), (30, 50), (20, 200)) *)
+Example C06_bt_delta_nonneg_binary64_example :
+  let N := B64Num b64_abs (fun x => x) (fun x => b64_mult mode_NE x x) (fun x => x) in
+  let P := @mkParams binary64 (b64_of_bits 4616377268039232171) (b64_of_dyadic 1 (-13))
+             (@gamma_default binary64 N) in
+  let ti := @mkT binary64 (b64_of_Z 25) (b64_of_Z 139) [] 0 in
+  let t1 := @mkT binary64 (b64_of_Z 30) (b64_of_Z 50) [] 1 in
+  let t2 := @mkT binary64 (b64_of_Z 20) (b64_of_Z 200) [] 2 in
+  0 <= B2R 53 1024
+         (snd (fold_left (@bt_term binary64 N P [ti; t1; t2] ti) [t1; t2]
+                 (@fzero binary64 N, @fzero binary64 N)))
+  /\ b64_ltb (@fzero binary64 N)
+       (snd (fold_left (@bt_term binary64 N P [ti; t1; t2] ti) [t1; t2]
+               (@fzero binary64 N, @fzero binary64 N))) = true.
+Proof.
+  intros N P ti t1 t2. split; [|vm_compute; reflexivity].
+  apply C06_bt_delta_nonneg_binary64.
+  - intros x _. change (0 <= B2R 53 1024 (Babs 53 1024 unop_nan_pl64 x)).
+    rewrite B2R_Babs. apply Rabs_pos.
+  - apply FloatOrderL.b64_sign_nonneg. vm_compute. reflexivity.
+  - intros tq [<-|[<-|[]]]; (split; [apply FloatOrderL.b64_sign_pos; vm_compute; reflexivity|]);
+      (split; [apply FloatOrderL.b64_sign_nonneg; vm_compute; reflexivity|]);
+      split; vm_compute; reflexivity.
+  - intros [|a [|b [|c pre]]] post E; cbn [app] in E.
+    + vm_compute. reflexivity.
+    + injection E as <- _. vm_compute. reflexivity.
+    + injection E as <- <- _. vm_compute. reflexivity.
+    + discriminate E.
+Qed.
